@@ -65,6 +65,32 @@ def main():
             for v in stats.violations:
                 print("REPRODUCED property=%s kind=%s py=%s: %s" % (a.prop, v["kind"], v["py"], v["detail"]))
             sys.exit(1)
+        h = rec.get("history")
+        if h:
+            # the case alone passes: the violation may depend on what the same process
+            # did before (caches, module state).  Replay the shard's history up to and
+            # including the case, in a fresh monitor.
+            mon = registry()[a.prop](rec.get("tier", a.tier))
+            mon.stage = h.get("stage", 1)
+            mon.shared = a.shared
+            stats = core.Stats()
+            n = 0
+            try:
+                for idx, case in enumerate(mon.cases()):
+                    if idx > h["idx"]:
+                        break
+                    if (idx + h["seed"]) % h["nshards"] != h["shard"]:
+                        continue
+                    n += 1
+                    mon.check(case, stats)
+            finally:
+                if hasattr(mon, "finish"):
+                    mon.finish(stats)
+            same = [v for v in stats.violations if v["kind"] == rec.get("kind")]
+            if same or stats.viol_kinds.get(rec.get("kind")):
+                v = same[0] if same else {"kind": rec.get("kind"), "py": core.PYS, "detail": "(record beyond the cap)"}
+                print("REPRODUCED-WITH-HISTORY property=%s kind=%s py=%s after replaying %d cases of the shard in one process: %s" % (a.prop, v["kind"], v["py"], n, v["detail"]))
+                sys.exit(1)
         print("NOT-REPRODUCED property=%s (the case passes on this tree)" % a.prop)
         sys.exit(0)
 
@@ -79,6 +105,7 @@ def main():
             if (idx + a.seed) % nshards != shard:
                 continue
             stats.enumerated[case.get("s", "_")] += 1
+            stats.where = (shard, nshards, a.seed, idx, a.stage)
             try:
                 mon.check(case, stats)
             except ref.HarnessError as e:
